@@ -827,6 +827,16 @@ MUTANTS = [
         "        a.advertise_new_work<arena::work_enqueued>();", "        a.advertise_new_work<arena::wakeup>();")]),
     dict(name='c20-mandatory-worker-released-over-a-pending-resume', prop='C20', clause='D2', edits=[('src/tbb/arena.cpp',
         "    return !my_fifo_task_stream.empty() || !my_resume_task_stream.empty();", "    return !my_fifo_task_stream.empty();")]),
+    dict(name='c12-ordered-range-empty-tests-the-successor', prop='C12', clause='D7', edits=[('include/oneapi/tbb/detail/_concurrent_skip_list.h',
+        "            return my_begin.my_node_ptr == my_end.my_node_ptr;",
+        "            return my_begin.my_node_ptr ? (my_begin.my_node_ptr->next(0) == my_end.my_node_ptr) : true;")]),
+    dict(name='c13-swap-leaves-the-comparator', prop='C13', clause='D5', edits=[('include/oneapi/tbb/concurrent_priority_queue.h',
+        "            swap(my_compare, other.my_compare);\n", "")]),
+    dict(name='c13-copy-assignment-leaves-the-comparator', prop='C13', clause='D5', edits=[('include/oneapi/tbb/concurrent_priority_queue.h',
+        "            my_compare = other.my_compare;\n        }\n        return *this;\n    }\n\n    concurrent_priority_queue& operator=( concurrent_priority_queue&& other ) {",
+        "        }\n        return *this;\n    }\n\n    concurrent_priority_queue& operator=( concurrent_priority_queue&& other ) {")]),
+    dict(name='c13-moved-from-queue-keeps-its-bookkeeping', prop='C13', clause='D5', edits=[('include/oneapi/tbb/concurrent_priority_queue.h',
+        "    void reset_moved_from() {\n        data.clear();\n        mark = 0;\n        my_size.store(0, std::memory_order_relaxed);", "    void reset_moved_from() {\n        data.clear();")]),
     dict(name='c01-seed3-run-and-wait-handle-epilogue-on-exception-only', prop='C01', clause='D9', edits=[('include/oneapi/tbb/task_group.h',
         """            execute_and_wait(*acs::release(h), context(), m_wait_vertex.get_context(), context());
         }).on_completion([&] {""",
@@ -1810,6 +1820,8 @@ BENIGN = [
     dict(name='c09-b-try-push-discounts-invalid-entries', prop='C09', edits=[('include/oneapi/tbb/concurrent_queue.h',
         "            if (static_cast<std::ptrdiff_t>(ticket - my_queue_representation->head_counter.load(std::memory_order_relaxed)) >= my_capacity) {",
         "            if (static_cast<std::ptrdiff_t>(ticket - my_queue_representation->head_counter.load(std::memory_order_relaxed)) - static_cast<std::ptrdiff_t>(my_queue_representation->n_invalid_entries.load(std::memory_order_relaxed)) >= my_capacity) {")]),
+    dict(name='c12-b-ordered-range-empty-by-iterators', prop='C12', edits=[('include/oneapi/tbb/detail/_concurrent_skip_list.h',
+        "            return my_begin.my_node_ptr == my_end.my_node_ptr;", "            return my_begin == my_end;")]),
     dict(name='c01-b-group-wait-epilogue-in-a-named-lambda', prop='C01', edits=[('include/oneapi/tbb/task_group.h',
         """        try_call([&] {
             d1::wait(m_wait_vertex.get_context(), context());
